@@ -255,31 +255,37 @@ fn hist_pid(term: u64, index: u64) -> u64 {
 
 // ───────────────────────── c19 / c18 over BufferedRaftLog ─────────────────────────
 
-fn compare(o: &OracleRef, step: usize, opname: &str, log: &BufferedRaftLog<MemT>, m: &LogModel, hi: u64, terms: u64, stale_boundary: bool) {
+/// `stale`: a purge boundary the log was given before a later reset()/prev(0,0) request. The plain log forgets it;
+/// `BufferedRaftLog` keeps `last_purged_index/term` (known finding KF14). A disagreement is attributed to KF14
+/// only if the answer obtained is exactly what a plain log that had kept that boundary would give.
+fn compare(o: &OracleRef, step: usize, opname: &str, log: &BufferedRaftLog<MemT>, m: &LogModel, hi: u64, terms: u64, stale: Option<(u64, u64)>, tainted: bool) {
     // the queried index range must cover both logs entirely: leader-style appends can grow the
     // log past the length of the generated histories
     let hi = hi.max(m.last()).max(log.last_entry_id());
-    let v =|q: &str, arg: u64, model: String, got: String| {
+    let dev = LogModel { entries: m.entries.clone(), purge: m.purge.or(stale) };
+    let v2 = |q: &str, arg: u64, model: String, got: String, deviant: String| {
         if model != got {
             o.lock().unwrap().violate(
                 "C19",
                 "query_disagrees",
                 json!({"op_seq_len": step + 1, "after_op": opname, "query": q, "arg": arg, "model": model, "got": got,
-                       "reset_after_purge_earlier": stale_boundary}),
+                       "reset_after_purge_earlier": tainted || (stale.is_some() && got == deviant)}),
             );
         }
     };
+    let v = |q: &str, arg: u64, model: String, got: String| v2(q, arg, model.clone(), got, model);
     v("first_entry_id", 0, format!("{}", m.first()), format!("{}", log.first_entry_id()));
     v("last_entry_id", 0, format!("{}", m.last()), format!("{}", log.last_entry_id()));
     v("is_empty", 0, format!("{}", m.entries.is_empty()), format!("{}", RaftLog::is_empty(log)));
-    v(
+    v2(
         "last_log_id",
         0,
         format!("{:?}", m.last_log_id()),
         format!("{:?}", log.last_log_id().map(|l| (l.index, l.term))),
+        format!("{:?}", dev.last_log_id()),
     );
     for i in 0..=hi + 1 {
-        v("entry_term", i, format!("{:?}", m.term_at(i)), format!("{:?}", log.entry_term(i)));
+        v2("entry_term", i, format!("{:?}", m.term_at(i)), format!("{:?}", log.entry_term(i)), format!("{:?}", dev.term_at(i)));
     }
     let mut tlist: Vec<u64> = (0..=terms + 1).collect();
     tlist.extend(m.entries.values().map(|v| v.0));
@@ -361,7 +367,10 @@ async fn run_buffered(plan: &LogPlan, o: &OracleRef) -> Value {
     let max_term = plan.hists.iter().flat_map(|h| h.iter()).copied().max().unwrap_or(1) + 2;
     let mut crashes = 0u64;
     let mut fresh_term = 100u64;
-    let mut stale_boundary = false;
+    let mut stale_boundary: Option<(u64, u64)> = None;
+    // the log's *contents* went down the KF14 path (a request was accepted / an index allocated relative to the stale
+    // boundary): from here on the plain log is no reference any more, every later disagreement is a consequence
+    let mut tainted = false;
     let mut replace_with_backlog = false;
     let mut durable_at_open = 0u64;
     let mut flushed_this_inc = false;
@@ -391,15 +400,23 @@ async fn run_buffered(plan: &LogPlan, o: &OracleRef) -> Value {
                 // (c19 only: in c18 plans a purge may remove the whole log before a crash, which the node's
                 // purge executor never does - retained_log_entries >= 1 - and the allocator then restarts at 1)
                 let real_start = if is18 { start } else { *log.pre_allocate_id_range(*n).start() };
+                let mut start = start;
                 if real_start != start {
                     o.lock().unwrap().probe("allocator_disagrees_with_plain_log");
+                    let dev_start = if model.last() > 0 { model.last() + 1 } else { model.purge.or(stale_boundary).map(|p| p.0).unwrap_or(0) + 1 };
+                    let by_stale = stale_boundary.is_some() && real_start == dev_start;
                     if !is18 {
                         o.lock().unwrap().violate(
                             "C19",
                             "query_disagrees",
                             json!({"op_seq_len": step + 1, "after_op": name, "query": "pre_allocate_id_range (leader append position)", "arg": n,
-                                   "model": start, "got": real_start, "reset_after_purge_earlier": stale_boundary}),
+                                   "model": start, "got": real_start, "reset_after_purge_earlier": by_stale || tainted}),
                         );
+                    }
+                    if by_stale {
+                        start = real_start;
+                        tainted = true;
+                        o.lock().unwrap().probe("c19_run_tainted_by_stale_boundary");
                     }
                 }
                 for k in 0..*n {
@@ -421,6 +438,8 @@ async fn run_buffered(plan: &LogPlan, o: &OracleRef) -> Value {
                     .collect();
                 let before_durable = log.durable_index();
                 let before = model.clone();
+                let mut dev = LogModel { entries: model.entries.clone(), purge: model.purge.or(stale_boundary) };
+                let want_dev = dev.follow(prev_i, prev_t, &es);
                 let want = model.follow(prev_i, prev_t, &es);
                 if before.entries.iter().any(|(i, v)| model.entries.get(i).is_some_and(|nv| nv != v) || (!model.entries.contains_key(i) && *i > prev_i)) {
                     conflicts += 1;
@@ -450,18 +469,41 @@ async fn run_buffered(plan: &LogPlan, o: &OracleRef) -> Value {
                     let got_s = format!("{:?}", got.as_ref().ok().map(|g| g.map(|l| (l.index, l.term))));
                     let want_s = format!("{:?}", Some(want));
                     if got_s != want_s {
+                        let by_stale = stale_boundary.is_some() && got_s == format!("{:?}", Some(want_dev));
                         o.lock().unwrap().violate(
                             "C19",
                             "query_disagrees",
                             json!({"op_seq_len": step + 1, "after_op": name, "query": "filter_out_conflicts_and_append result", "arg": prev_i, "model": want_s, "got": got_s,
-                                   "reset_after_purge_earlier": stale_boundary}),
+                                   "reset_after_purge_earlier": by_stale || tainted}),
                         );
+                        if by_stale {
+                            // the log took the path a plain log with the stale boundary would take: follow it
+                            model.entries = dev.entries.clone();
+                            tainted = true;
+                            o.lock().unwrap().probe("c19_run_tainted_by_stale_boundary");
+                        }
+                    } else if stale_boundary.is_some() && dev.entries != model.entries && format!("{:?}", Some(want_dev)) == want_s {
+                        // same answer on both paths but different contents: decide by what the log holds now
+                        let got_entries: Vec<(u64, u64)> = log.get_entries_range(0..=model.last().max(dev.last()) + 2).unwrap_or_default().iter().map(|e| (e.index, e.term)).collect();
+                        let dev_entries: Vec<(u64, u64)> = dev.entries.iter().map(|(i, (t, _))| (*i, *t)).collect();
+                        let strict_entries: Vec<(u64, u64)> = model.entries.iter().map(|(i, (t, _))| (*i, *t)).collect();
+                        if got_entries == dev_entries && got_entries != strict_entries {
+                            o.lock().unwrap().violate(
+                                "C19",
+                                "query_disagrees",
+                                json!({"op_seq_len": step + 1, "after_op": name, "query": "filter_out_conflicts_and_append effect", "arg": prev_i,
+                                       "model": format!("{strict_entries:?}"), "got": format!("{got_entries:?}"), "reset_after_purge_earlier": true}),
+                            );
+                            model.entries = dev.entries.clone();
+                            tainted = true;
+                            o.lock().unwrap().probe("c19_run_tainted_by_stale_boundary");
+                        }
                     }
                 }
             }
             LOp::FollowFromZero { hist, n } => {
                 if model.purge.is_some() {
-                    stale_boundary = true;
+                    stale_boundary = model.purge;
                 }
                 let h = &plan.hists[*hist];
                 let es: Vec<(u64, u64, u64)> = (1..=(*n).min(h.len() as u64)).map(|i| (i, h[i as usize - 1], hist_pid(h[i as usize - 1], i))).collect();
@@ -480,12 +522,15 @@ async fn run_buffered(plan: &LogPlan, o: &OracleRef) -> Value {
                 }
                 let term = model.term_at(upto).unwrap_or(0);
                 model.purge_to(upto, term);
+                if stale_boundary.is_some_and(|p| upto >= p.0) {
+                    stale_boundary = None; // the log's remembered boundary has been overwritten by a newer one
+                }
                 ledger.must_have = ledger.must_have.split_off(&(upto + 1));
                 let _ = log.purge_logs_up_to(LogId { index: upto, term }).await;
             }
             LOp::Reset => {
                 if model.purge.is_some() {
-                    stale_boundary = true;
+                    stale_boundary = model.purge;
                 }
                 for (i, (t, p)) in model.entries.clone().iter() {
                     ledger.must_have.remove(i);
@@ -600,7 +645,10 @@ async fn run_buffered(plan: &LogPlan, o: &OracleRef) -> Value {
         }
         o.lock().unwrap().trace("lop", step as u64, opened.log.last_entry_id(), opened.log.durable_index());
         if !is18 {
-            compare(o, step, &name, &opened.log, &model, hi, max_term, stale_boundary);
+            compare(o, step, &name, &opened.log, &model, hi, max_term, stale_boundary, tainted);
+            if stale_boundary.is_some() && !tainted {
+                o.lock().unwrap().probe("c19_compared_exactly_with_stale_boundary");
+            }
         }
     }
     let _ = &opened.io;
